@@ -950,13 +950,24 @@ def replay(ctx, rp):
 
 
 MANIFEST = {
-    "text": "Lean theorems about an executable model of prover/congc.py CongClosure for every sequence of add_var/merge operations: "
-            "test is sound and complete for the congruence closure of the merged equations (hence order independent), explanations use only "
-            "merged equations and entail the explained equality. Model tied to the code by differential runs on generated operation sequences "
-            "(partition after every operation, every test/explain result); the implementation's answers are judged by a naive fixpoint closure; "
-            "CongClosureHOL.explain is judged by the kernel checker (conclusion, hypotheses, gaps).",
-    "note": "Trusted: Lean kernel, propext/Classical.choice/Quot.sound, the harness generators/flattener/naive closure, theory.check_proof for the "
-            "HOL wrapper's theorems. The HOL wrapper (add_term, proof-term assembly) is not modelled in Lean; ematch is outside the property.",
+    "text": "Lean theorems about an executable model of prover/congc.py CongClosure, for every sequence of add_var/merge calls (test and "
+            "explain do not change the structure, so every interleaving is covered): test_sound and test_complete (test answers True exactly "
+            "for the congruence closure of the merged equations, on entered constants; test_defined_iff_entered: KeyError exactly for "
+            "constants never entered), order_independent (same answers for any two sequences with the same members) and renaming_invariant "
+            "(independent of how constants are numbered), pending_empty_after_merge (_propagate terminates within the modelled bound), "
+            "explain_uses_inputs (every label of a returned explanation is a merged equation / a pair of merged application equations with "
+            "congruent arguments, and the listed equations alone entail every explained pair). The model is tied to the code by differential "
+            "runs on generated operation sequences (partition induced by test after every operation, every test/explain result); the "
+            "implementation's own answers are judged by a naive fixpoint closure (both directions), explanations by re-deriving the equality "
+            "from their labels alone, order independence by running permutations; CongClosureHOL (typed curried terms) is run for real: "
+            "test against the naive closure on terms and against the model, explain through theory.check_proof (conclusion is the queried "
+            "equality, hypotheses and gaps are merged equations and entail it).",
+    "note": "Trusted: Lean kernel, propext/Classical.choice/Quot.sound, the harness generators/flattener/naive closure, theory.check_proof for "
+            "the HOL wrapper's theorems. Not proved in Lean: that explain never fails on equal constants (assertion / recursion bound; the "
+            "harness reports explain failing on a valid equality as a violation), that dictionary reads inside merge cannot raise KeyError "
+            "(model uses defaults; a KeyError in the code shows up as a disagreement and as a failed merge). The HOL wrapper (add_term, "
+            "proof-term assembly) is not modelled in Lean: order independence at the level of terms is Lean-proved only up to the flattening "
+            "(same core operations in any order, any injective renaming) and otherwise checked by the perm stream; ematch is outside the property.",
     "design_ref": "DESIGN.md 4/C17",
 }
 FINDINGS = [
